@@ -69,6 +69,21 @@ impl Emitted {
     }
 }
 
+/// temporary source files of a run: removed when the run ends, also when it ends by a panic that is caught further up
+pub struct TmpFiles(pub Vec<Option<std::path::PathBuf>>);
+
+impl TmpFiles {
+    pub fn push(&mut self, p: Option<std::path::PathBuf>) {
+        self.0.push(p);
+    }
+}
+
+impl Drop for TmpFiles {
+    fn drop(&mut self) {
+        cleanup_tmp(&self.0);
+    }
+}
+
 pub fn cleanup_tmp(paths: &[Option<std::path::PathBuf>]) {
     for p in paths.iter().flatten() {
         std::fs::remove_file(p).ok();
@@ -85,7 +100,7 @@ pub fn emit(spec: &SenderSpec, objs: &[ObjSpec], opts: &EmitOpts) -> Result<Emit
     let mut add_err = vec![];
     let mut transfer_len = vec![];
     let mut seek_logs = vec![];
-    let mut tmp = vec![];
+    let mut tmp = TmpFiles(vec![]);
     for o in objs {
         match build_object(o) {
             Err(e) => {
@@ -123,7 +138,7 @@ pub fn emit(spec: &SenderSpec, objs: &[ObjSpec], opts: &EmitOpts) -> Result<Emit
     for _ in 0..opts.max_instants {
         let r = drain(&mut sender, now, opts.max_packets, &mut stream, Some(&rec));
         if let Err(e) = r {
-            cleanup_tmp(&tmp);
+            drop(tmp);
             return Err(e);
         }
         if sender.nb_objects() == 0 {
@@ -139,7 +154,7 @@ pub fn emit(spec: &SenderSpec, objs: &[ObjSpec], opts: &EmitOpts) -> Result<Emit
         now += Duration::from_millis(opts.step_ms);
     }
     drop(sender);
-    cleanup_tmp(&tmp);
+    drop(tmp);
     let sub_events = rec.events.lock().unwrap().clone();
     Ok(Emitted {
         spec: spec.clone(),
@@ -411,7 +426,7 @@ pub fn run_script(
     let mut tois: Vec<Option<u128>> = vec![None; objs.len()];
     let mut transfer_len: Vec<Option<u64>> = vec![None; objs.len()];
     let mut seek_logs: Vec<Option<Arc<std::sync::Mutex<Vec<String>>>>> = vec![None; objs.len()];
-    let mut tmp = vec![];
+    let mut tmp = TmpFiles(vec![]);
     let mut stream: Vec<SPkt> = vec![];
     let mut ops: Vec<OpRec> = vec![];
     let mut samples: Vec<StateSample> = vec![];
@@ -496,7 +511,7 @@ pub fn run_script(
                 if !due {
                     break;
                 }
-                let r = exec(&mut sender, op, now, stream.len(), &mut tois, &mut transfer_len, &mut seek_logs, &mut tmp);
+                let r = exec(&mut sender, op, now, stream.len(), &mut tois, &mut transfer_len, &mut seek_logs, &mut tmp.0);
                 ops.push(r);
                 done[k] = true;
                 samples.push(sample(&mut sender, &tois, stream.len(), now, false, 0));
@@ -539,7 +554,7 @@ pub fn run_script(
         .fdt_xml_data(if opts.us { util::at_us(*instants_used.last().unwrap_or(&0)) } else { util::at(*instants_used.last().unwrap_or(&0)) })
         .ok();
     drop(sender);
-    cleanup_tmp(&tmp);
+    drop(tmp);
     if let Some(e) = err {
         return Err(e);
     }
